@@ -40,15 +40,21 @@ Section Ws.
       rewrite lsize_cons2 in SZ. pose proof (isize_pos2 a).
       destruct l as [|spc l]; [reflexivity|]. cbn [arg_nodes2 fst].
       rewrite !structure_args_cons. f_equal.
-      + apply NN; [lia|exact Wa].
+      + unfold arg_node2.
+        assert (G : sopt (node_of2 cx (apply_adelta ps (a_delta spc)) (p + length (item_ws2 a)) a)
+                    = sopt (node_of2 cx (apply_adelta ps (a_delta spc)) (p' + length (item_ws2 a')) a'))
+          by (apply NN; [lia|exact Wa]).
+        destruct (a_kind spc) as [?|? ? ? ?|ch sp full|?]; try exact G.
+        destruct a as [ws cs| | | | | | | | |]; destruct a' as [ws' cs'| | | | | | | | |]; try contradiction; try exact G.
+        cbn [wsv2] in Wa. destruct Wa as [_ <-]. destruct full; reflexivity.
       + apply IH; [lia|exact Wr].
   Qed.
 
   Lemma node_step2 n : NodeN2 n -> ListN2 n -> NodeN2 (S n).
   Proof.
     intros NN LN i i' SZ W ps p p'.
-    destruct i as [ws cs|ws b tr|ws name post args|ws k b tr|ws text post|ws mid|ws bws name args b tr ews|ws chars args];
-      destruct i' as [ws' cs'|ws' b' tr'|ws' name' post' args'|ws' k' b' tr'|ws' text' post'|ws' mid'|ws' bws' name' args' b' tr' ews'|ws' chars' args'];
+    destruct i as [ws cs|ws b tr|ws name post args|ws k b tr|ws text post|ws mid|ws bws name args b tr ews|ws chars args|ws oc cc b tr|];
+      destruct i' as [ws' cs'|ws' b' tr'|ws' name' post' args'|ws' k' b' tr'|ws' text' post'|ws' mid'|ws' bws' name' args' b' tr' ews'|ws' chars' args'|ws' oc' cc' b' tr'|];
       try contradiction; cycle 4.
     - cbn [wsv2] in W. destruct W as (W1 & <- & W2). repeat split.
     - cbn [node_of2]. destruct (par_spec_ok cx); repeat split.
@@ -83,6 +89,13 @@ Section Ws.
                    | None :: r => None :: sa r
                    end) x = structure_args x) by reflexivity.
       rewrite !E. erewrite (args_struct2 n NN args args'); [reflexivity|lia|exact W3].
+    - (* delimited argument *)
+      cbn [wsv2] in W. destruct W as (W1 & <- & <- & W2 & W3). fold (wsv_items2 b b') in W3.
+      cbn [isize2] in SZ. fold (lsize2 b) in SZ.
+      rewrite !node_of_brk2. cbn zeta. cbn [sopt oblank is_blank_node structure]. repeat split.
+      rewrite !structure_gen_nodelist.
+      erewrite (close_struct2 n LN b b' tr tr'); [reflexivity|lia|exact W3|exact W2].
+    - (* absent argument *) repeat split.
     - repeat split.
     - cbn [wsv2] in W. destruct W as (W1 & W2 & W3). fold (wsv_items2 b b') in W3.
       cbn [isize2] in SZ. fold (lsize2 b) in SZ.
@@ -117,8 +130,8 @@ Section Ws.
     rewrite lsize_cons2 in SZ. pose proof (isize_pos2 i). rewrite !absorb_cons2.
     apply LN; [lia|exact Wr|].
     destruct (NN i i' ltac:(lia) Wi ps (p + length (item_ws2 i)) (p' + length (item_ws2 i'))) as (N1 & N2 & N3).
-    destruct i as [ws cs|ws b tr|ws name post args|ws k b tr|ws text post|ws mid|ws bws name args b tr ews|ws chars args];
-      destruct i' as [ws' cs'|ws' b' tr'|ws' name' post' args'|ws' k' b' tr'|ws' text' post'|ws' mid'|ws' bws' name' args' b' tr' ews'|ws' chars' args'];
+    destruct i as [ws cs|ws b tr|ws name post args|ws k b tr|ws text post|ws mid|ws bws name args b tr ews|ws chars args|ws oc cc b tr|];
+      destruct i' as [ws' cs'|ws' b' tr'|ws' name' post' args'|ws' k' b' tr'|ws' text' post'|ws' mid'|ws' bws' name' args' b' tr' ews'|ws' chars' args'|ws' oc' cc' b' tr'|];
       try contradiction; cbn [absorb_item2 item_ws2] in *.
     - cbn [wsv2] in Wi. destruct Wi as [W1 <-]. apply cs_push_pending; [exact C|].
       apply feq_app. apply wse_feq. exact W1.
@@ -129,6 +142,9 @@ Section Ws.
     - apply cs_push_node; [|exact N1|congruence]. apply cs_pre_flush; [exact C|]. cbn [wsv2] in Wi. exact Wi.
     - apply cs_push_node; [|exact N1|congruence]. apply cs_pre_flush; [exact C|]. cbn [wsv2] in Wi. tauto.
     - apply cs_push_node; [|exact N1|congruence]. apply cs_pre_flush; [exact C|]. cbn [wsv2] in Wi. tauto.
+    - apply cs_push_node; [|exact N1|congruence]. apply cs_pre_flush; [exact C|]. cbn [wsv2] in Wi. tauto.
+    - apply cs_push_node; [|exact N1|congruence]. apply cs_pre_flush; [exact C|].
+      split; [reflexivity|split; [reflexivity|tauto]].
   Qed.
 
   Lemma ws_all2 n : NodeN2 n /\ ListN2 n.
